@@ -19,7 +19,8 @@ def jobs(tier):
             scope=['vp_on_error', 'type_size', 'memset', 'memmove', 'memcpy'])
     j.count_funcs = {'load_bss_data_section', '_MIR_type_size', 'MIR_malloc', 'vp_malloc', 'malloc'}
     j.strict_reach = False
-    J.append(j)
+    if tier == 'thorough':
+        J.append(j)
     return J
 
 
